@@ -95,3 +95,19 @@ Theorem C37_begin_never_waits :
     <> TxnOracle.OErr TxnOracle.EHang.
 Proof. exact TxnNoHang.begin_never_waits. Qed.
 Print Assumptions C37_begin_never_waits.
+
+(** Known finding C37-F2.  Full statement: the first commit after a reopen gets
+    a timestamp above every stored version (and returns).  It is refuted when
+    the store holds the sentinel version 2^64-1 of the plain API: the
+    timestamp counter wraps to 0, the assertion in newCommitTs fails and the
+    process ends.  It holds for every other recovered maximum. *)
+Theorem C37_commit_after_reopen_refuted :
+  exists m, m < TxnOracle.two64 /\ TxnOracle.commit_after_open m = TxnOracle.RcFatal.
+Proof. exact TxnNoHang.commit_after_open_refuted. Qed.
+Print Assumptions C37_commit_after_reopen_refuted.
+
+Theorem C37_commit_after_reopen_partial :
+  forall m, m < TxnOracle.sentinel_version ->
+    exists ts, TxnOracle.commit_after_open m = TxnOracle.RcCommits ts /\ m < ts.
+Proof. exact TxnNoHang.commit_after_open_below_sentinel. Qed.
+Print Assumptions C37_commit_after_reopen_partial.
